@@ -112,6 +112,14 @@ def build_call(emd, variant, route, pattern, x, mode):
     cfg = S.get_config(variant)
     for k, v in small[variant].items():
         cfg[k] = v
+    if route == 'partial_after_edit':
+        # a history on ONE configuration object: a partial is taken, THEN the options are edited in the nested
+        # dictionaries directly (the style shown in get_config's docstring), then a partial is taken again
+        stale = cfg.get_func()
+        for g, v in groups.items():
+            for kk, vv in v.items():
+                cfg[KEY[g]][kk] = vv
+        return (lambda: cfg.get_func()(x)), groups
     for g, v in groups.items():
         for kk, vv in v.items():
             cfg[KEY[g] + '/' + kk] = vv
@@ -187,7 +195,7 @@ def run():
     pats = [tuple(g for g, b in zip(('imf', 'env', 'ext'), bits) if b) for bits in itertools.product((0, 1), repeat=3)]
     items = []
     for variant in ('sift', 'ensemble_sift', 'complete_ensemble_sift', 'mask_sift'):
-        for route in ('kwargs', 'config', 'partial'):
+        for route in ('kwargs', 'config', 'partial', 'partial_after_edit'):
             for pat in pats:
                 for mode in (('single', 'flip') if variant != 'sift' else ('single',)):
                     for sig in range(ctx.pick(1, 3)):
@@ -213,7 +221,7 @@ def run():
             clause, variant, caller, stage, len(rs), r['route'], r['mode'], r['supplied'], r.get('sees'), r.get('proc'), r.get('err') or (r.get('eff') or '')),
             {'clause': clause, 'record': r})
     ctx.cov['exhaustive'] = True
-    ctx.cov['rule'] = ('variant in {sift, ensemble_sift, complete_ensemble_sift, mask_sift} x route {keyword dicts, **SiftConfig, get_func partial} x all 2^3 patterns of supplied '
+    ctx.cov['rule'] = ('variant in {sift, ensemble_sift, complete_ensemble_sift, mask_sift} x route {keyword dicts, **SiftConfig, get_func partial, get_func partial re-issued after direct nested edits} x all 2^3 patterns of supplied '
                        'option groups (distinguishable non-default values incl. custom np.pad options) x noise mode / mask-frequency source, plus both second-layer sifts; every distinct '
                        '(stage, caller, process, classification) observation is one record; non-trivial = stage calls observed inside pool workers with user-supplied options')
     ctx.assumptions += ['a stage "sees user options" iff every key of its group equals the supplied value; default-equivalent spellings (None, {}, explicit default np.pad dicts) count as default',
